@@ -301,7 +301,10 @@ class World:
             try:
                 o = C(**kw)
             except Exception as e:  # noqa: BLE001
-                raise HarnessError(f"instantiation failed: {type(e).__name__}: {e}\n{self.src}\n{kw}") from None
+                if isinstance(e, TypeError) and "__init__()" in str(e):
+                    raise HarnessError(f"instantiation failed: {type(e).__name__}: {e}\n{self.src}\n{kw}") from None
+                # construction runs the generated accessors (digests); a valid class with valid values must construct
+                raise self.viol("C12.9 construction-raised", f"C12.9:{type(e).__name__}", f"constructing {cname} raised {type(e).__name__}: {e}", src=self.src) from None
             self.mark(cname)
             self.inst[op["inst"]] = o
             self.inst_cls[op["inst"]] = cname
